@@ -12,17 +12,37 @@ def closeEV (tol : Option Rat) : EV → EV → Bool
   | .sc a, .sc b => closeVal tol a b
   | a, b => decide (a = b)
 
+/-- `a + b` when an operand may be an ERROR VALUE (a perturbed stored result; the engine correspondence never feeds
+    one): an error operand wins over a failed coercion of the other operand ("b" + #N/A = #N/A), left first -/
+def addVals (a b : Val) : Val :=
+  match a, b with
+  | .err e, _ => .err e
+  | _, .err e => .err e
+  | a, b =>
+    match toNum a with
+    | .error e => .err e
+    | .ok x =>
+      match toNum b with
+      | .error e => .err e
+      | .ok y => .num (x + y)
+
+/-- the formula semantics of EngineInst with that refinement of `+` -/
+def semV (specs : List Spec) : Nat → (Nat → EV) → EV := fun i env =>
+  match specs[i]? with
+  | some (.fml (.add a b)) => .sc (addVals (env a).val (env b).val)
+  | _ => sem specs i env
+
 /-- what Excel computed: a node pycel cannot evaluate counts as the constant stored for it -/
 def semTot (specs : List Spec) (raises : Nat → Option (Fail × Val)) : Nat → (Nat → EV) → EV := fun i env =>
   match raises i with
   | some (_, v) => .sc v
-  | none => sem specs i env
+  | none => semV specs i env
 
 /-- what pycel computes: the same, or the exception -/
 def semG (specs : List Spec) (raises : Nat → Option (Fail × Val)) : Nat → (Nat → EV) → Except Fail EV := fun i env =>
   match raises i with
   | some (e, _) => .error e
-  | none => .ok (sem specs i env)
+  | none => .ok (semV specs i env)
 
 /-- `needed_addresses` lists every precedent once (`uniqueify`), in order of first occurrence -/
 def uniqWb (wb : Workbook) : Workbook := { wb with deps := fun i => (wb.deps i).eraseDups }
